@@ -84,6 +84,15 @@ class W_Stale(Module):
         return None, self.cache * dx
 
 
+def w_lints(direction, x, n):
+    mask = np.logical_and(x > 0, x < 1, x != 0.5)     # R-UFUNC-ARITY: third operand is `out`
+    count = int(x.size * n)
+    tail = x[-count:]                                  # R-NEGSLICE: count may be 0
+    direction = [0.0, 0.0, 0.0]
+    sign = -1.0 if '-' in direction else 1.0           # R-KIND: constant-false string test on a numeric list
+    return mask, tail, sign
+
+
 class W_Solver(LinearSolver):
     def update(self, A):
         self.A = A
